@@ -274,6 +274,8 @@ impl BDF {
         }
 
         'main_loop: loop {
+            #[cfg(feature = "verif")]
+            crate::verif::tick(crate::verif::BDF_MAIN);
             if steps.total >= nmax {
                 status = Status::NeedLargerNMax;
                 break;
@@ -372,6 +374,8 @@ impl BDF {
                     }
                     Err(_) => {
                         let factor = 0.5;
+                        #[cfg(feature = "verif")]
+                        crate::verif::tick(crate::verif::BDF_LU_FAIL);
                         change_d(&mut d, order, factor, &mut scratch_change);
                         current_h *= factor;
                         n_equal_steps = 0;
@@ -389,6 +393,8 @@ impl BDF {
             let mut dy_norm_prev: Option<Float> = None;
             let mut iters = 0usize;
             while iters < newton_maxiter_val {
+                #[cfg(feature = "verif")]
+                crate::verif::tick(crate::verif::BDF_NEWTON);
                 f.ode(x_new, &y_new, &mut rhs);
                 evals.ode += 1;
                 for i in 0..n {
@@ -447,6 +453,8 @@ impl BDF {
             }
             if !converged {
                 // Always refresh Jacobian on Newton failure to handle discontinuities
+                #[cfg(feature = "verif")]
+                crate::verif::tick(crate::verif::BDF_NEWTON_FAIL);
                 f.jac(x_new, &y_predict, &mut jac);
                 evals.jac += 1;
                 lu_is_current = false;
@@ -479,6 +487,8 @@ impl BDF {
             };
 
             if error_norm > 1.0 {
+                #[cfg(feature = "verif")]
+                crate::verif::tick(crate::verif::BDF_REJECT);
                 let mut factor = safety * error_norm.powf(-1.0 / (order as Float + 1.0));
                 factor = factor.max(MIN_FACTOR);
                 change_d(&mut d, order, factor, &mut scratch_change);
@@ -600,6 +610,8 @@ impl BDF {
                 lu_is_current = false;  // Order or step changed
                 
                 if new_order != old_order {
+                    #[cfg(feature = "verif")]
+                    crate::verif::tick(crate::verif::BDF_ORDER_CHANGE);
                     f.jac(x, &y, &mut jac);
                     evals.jac += 1;
                 }
